@@ -202,6 +202,25 @@ package types
 //@   ensures @denom err == nil ==> validDenom(p.Denom)
 //@   ensures @fees_positive err == nil ==> p.FeeRegister >= 1 && p.FeeRecord >= 1 && p.FeePurchaseStorage >= 1
 //@   ensures @limits err == nil ==> p.DefaultStorageLimit >= 1 && p.MaxStorageLimit >= 1 && p.DefaultStorageLimit <= p.MaxStorageLimit
+//@   ensures @accepts_every_valid_set validDenom(p.Denom) && p.FeeRegister >= 1 && p.FeeRecord >= 1 && p.FeePurchaseStorage >= 1 && p.DefaultStorageLimit >= 1 && p.DefaultStorageLimit <= p.MaxStorageLimit ==> err == nil
+
+// Genesis validation accepts exactly the documents whose parameters are valid and whose registrations carry an id, an
+// owner, a moniker, a type and a storage limit, and whose retained blocks carry a hash and a height (C15: what export
+// writes must be accepted again; C16: a document with invalid parameters never reaches the store).
+//@ func ValidateGenesis(data) (err)
+//@   props C15 C16
+//@   pure
+//@   let ws := data.RegisteredWrkchains
+//@   ensures @params_valid err == nil ==> validDenom(data.Params.Denom) && data.Params.FeeRegister >= 1 && data.Params.FeeRecord >= 1 && data.Params.FeePurchaseStorage >= 1 && data.Params.DefaultStorageLimit >= 1 && data.Params.DefaultStorageLimit <= data.Params.MaxStorageLimit
+//@   ensures @registrations_wellformed err == nil ==> forall j int :: {ws[j]} 0 <= j && j < len(ws) ==> ws[j].Wrkchain.WrkchainId >= 1 && ws[j].Wrkchain.Owner != "" && ws[j].Wrkchain.Moniker != "" && ws[j].Wrkchain.Type != "" && ws[j].InStateLimit >= 1
+//@   ensures @blocks_wellformed err == nil ==> forall j int, b int :: {ws[j].Blocks[b]} 0 <= j && j < len(ws) && 0 <= b && b < len(ws[j].Blocks) ==> ws[j].Blocks[b].Bh != "" && ws[j].Blocks[b].He >= 1
+//@   ensures @rejects_only_malformed err != nil ==> !(validDenom(data.Params.Denom) && data.Params.FeeRegister >= 1 && data.Params.FeeRecord >= 1 && data.Params.FeePurchaseStorage >= 1 && data.Params.DefaultStorageLimit >= 1 && data.Params.DefaultStorageLimit <= data.Params.MaxStorageLimit) || exists j int :: 0 <= j && j < len(ws) && (ws[j].Wrkchain.WrkchainId == 0 || ws[j].Wrkchain.Owner == "" || ws[j].Wrkchain.Moniker == "" || ws[j].Wrkchain.Type == "" || ws[j].InStateLimit == 0 || exists b int :: 0 <= b && b < len(ws[j].Blocks) && (ws[j].Blocks[b].Bh == "" || ws[j].Blocks[b].He == 0))
+//@   loop 0: invariant 0 - 1 <= rangeindex && rangeindex < len(ws)
+//@   loop 0: invariant validDenom(data.Params.Denom) && data.Params.FeeRegister >= 1 && data.Params.FeeRecord >= 1 && data.Params.FeePurchaseStorage >= 1 && data.Params.DefaultStorageLimit >= 1 && data.Params.DefaultStorageLimit <= data.Params.MaxStorageLimit
+//@   loop 0: invariant forall j int :: {ws[j]} 0 <= j && j <= rangeindex ==> ws[j].Wrkchain.WrkchainId >= 1 && ws[j].Wrkchain.Owner != "" && ws[j].Wrkchain.Moniker != "" && ws[j].Wrkchain.Type != "" && ws[j].InStateLimit >= 1
+//@   loop 0: invariant forall j int, b int :: {ws[j].Blocks[b]} 0 <= j && j <= rangeindex && 0 <= b && b < len(ws[j].Blocks) ==> ws[j].Blocks[b].Bh != "" && ws[j].Blocks[b].He >= 1
+//@   loop 1: invariant 0 - 1 <= rangeindex && rangeindex < len(record.Blocks)
+//@   loop 1: invariant forall b int :: {record.Blocks[b]} 0 <= b && b <= rangeindex ==> record.Blocks[b].Bh != "" && record.Blocks[b].He >= 1
 
 //@ global ParamsKey abstracts wrk_key(ParamsKey) == kParams
 //@ global HighestWrkChainIDKey abstracts wrk_key(HighestWrkChainIDKey) == kHighest
